@@ -54,7 +54,7 @@ fn two_different(c: &mut Choices) -> ((String, String), (String, String)) {
     }
 }
 
-pub const N_SNIPPETS: usize = 34;
+pub const N_SNIPPETS: usize = 36;
 
 pub fn snippet(k: usize, c: &mut Choices) -> Snippet {
     let mut decls = String::new();
@@ -345,6 +345,38 @@ pub fn snippet(k: usize, c: &mut Choices) -> Snippet {
                 _ => "let zz = \"abc\".contains(1);\n",
             };
             ("built-in-method-of-a-generic-type-with-other-types", s.to_string())
+        }
+        34 => {
+            // a loop, an `if` without else or a short-circuit operator may not run the part that
+            // leaves the function, so the body still needs a value of the return type at its end
+            let d = match c.below(8) {
+                0 => "fn zz_cond(c: bool) -> i32 { c && return 1; }\n",
+                1 => "fn zz_cond(c: bool) -> i32 { c || return 1; }\n",
+                2 => "fn zz_cond(c: bool) -> i32 { while c { return 1; } }\n",
+                3 => "fn zz_cond(c: bool) -> i32 { for x in [1] { return x; } }\n",
+                4 => "fn zz_cond(c: bool) -> i32 { if c { return 1; } }\n",
+                5 => "fn zz_cond(c: bool) -> String { (c && return \"a\") || c; }\n",
+                6 => "fn zz_cond(c: i32?) -> i32 { match c { Some(x) => { return x; } None => {} } }\n",
+                _ => "fn zz_cond(c: bool) -> i32 { let zz = c && { return 1 }; }\n",
+            };
+            decls.push_str(d);
+            ("no-final-value-after-a-conditional-exit", "let zz = 1;\n".to_string())
+        }
+        35 => {
+            // only something that never produces a value fits where `!` is required
+            let s = match c.below(4) {
+                0 => "let zz: ! = 0;\n",
+                1 => "let zz: ! = \"a\";\n",
+                2 => {
+                    decls.push_str("fn zz_never(x: !) -> i32 { 1 }\n");
+                    "let zz = zz_never(2);\n"
+                }
+                _ => {
+                    decls.push_str("fn zz_never() -> ! { 5 }\n");
+                    "let zz = 1;\n"
+                }
+            };
+            ("value-where-the-never-type-is-required", s.to_string())
         }
         _ => {
             let s = match c.below(3) {
